@@ -14,6 +14,7 @@ var ovTypes = []struct{ name, goType, varName, init string }{
 	{"*rec", "*rec", "vp", `&rec{"p", 1}`},
 	{"rec", "rec", "vr", `rec{"r", 2}`},
 	{"func(int) int", "func(int) int", "vfn", "func(x int) int { return x + 1 }"},
+	{"size2", "size2", "vq", "size2{3, 4}"},
 }
 
 const ovVars = `var vi int = 3
@@ -24,7 +25,8 @@ var vl []int = []int{1, 2}
 var vp *rec = &rec{"p", 1}
 var vr rec = rec{"r", 2}
 var vfn func(int) int = func(x int) int { return x + 1 }
-_, _, _, _, _, _, _, _ = vi, vs, vb, vf, vl, vp, vr, vfn
+var vq size2 = size2{3, 4}
+_, _, _, _, _, _, _, _, _ = vi, vs, vb, vf, vl, vp, vr, vfn, vq
 `
 
 // OverloadItem draws one overload set (2..4 candidates with pairwise different parameter type
@@ -80,9 +82,27 @@ func (g *G) OverloadItem() Item {
 		}
 		return strings.Join(n, ", ")
 	}
-	body := func(i int) string {
+	// self call: the body of candidate 0 calls the overloaded name with the argument types of
+	// candidate 1 (generated only when the flag is set: it is a listed finding of C10 otherwise)
+	selfCall := g.Flags["overload-self-call"] && k >= 2 && style != "method" && g.Chance(25, "selfcall")
+	litOf := func(t []int) string {
+		var n []string
+		for _, ti := range t {
+			n = append(n, ovTypes[ti].init)
+		}
+		return strings.Join(n, ", ")
+	}
+	bodyOf := func(i int, xgo bool) string {
+		if selfCall && i == 0 {
+			callee := id
+			if !xgo {
+				callee = fmt.Sprintf("%s_c1", id)
+			}
+			return fmt.Sprintf("{\n\tfmt.Println(\"  cand\", %q)\n\treturn 100 + %s(%s)\n}", tag(tuples[i]), callee, litOf(tuples[1]))
+		}
 		return fmt.Sprintf("{\n\tfmt.Println(\"  cand\", %q)\n\treturn %d\n}", tag(tuples[i]), i)
 	}
+	body := func(i int) string { return bodyOf(i, true) }
 	// argument spellings per type: the typed variable, typed expressions, and literals where only
 	// parameters of that type accept them (an int literal would also be accepted by float64, so
 	// it is used only when no candidate of the same arity has float64 at that position). Each
@@ -96,6 +116,17 @@ func (g *G) OverloadItem() Item {
 		{{"vp", "vp"}, {"&vr", "&vr"}, {`&rec{"q", 2}`, `&rec{"q", 2}`}},
 		{{"vr", "vr"}, {`rec{"q", 2}`, `rec{"q", 2}`}, {"*vp", "*vp"}},
 		{{"vfn", "vfn"}, {"func(x int) int { return x }", "func(x int) int { return x }"}, {"x => x * 2", "func(x int) int { return x * 2 }"}},
+		{{"vq", "vq"}, {"size2{W: 5, H: 6}", "size2{W: 5, H: 6}"}, {"{W: 5, H: 6}", "size2{W: 5, H: 6}"}, {"{W: vi}", "size2{W: vi}"}},
+	}
+	// an untyped {field: value} literal is accepted by the struct type that has those fields (here
+	// also by a pointer to it, so it is not used for rec when a candidate has *rec at that position)
+	ptrRecAt := func(pos, arity int) bool {
+		for _, t := range tuples {
+			if len(t) == arity && pos < len(t) && ovTypes[t[pos]].name == "*rec" {
+				return true
+			}
+		}
+		return false
 	}
 	floatAt := func(pos, arity int) bool {
 		for _, t := range tuples {
@@ -116,6 +147,9 @@ func (g *G) OverloadItem() Item {
 			f := forms[k]
 			if ovTypes[ti].name == "int" && g.Chance(20, "intlit") && !floatAt(pos, len(t)) {
 				f = [2]string{"7", "7"}
+			}
+			if ovTypes[ti].name == "rec" && g.Chance(25, "untyped-struct-lit") && !ptrRecAt(pos, len(t)) {
+				f = [2]string{`{nm: "u", sc: 9}`, `rec{nm: "u", sc: 9}`}
 			}
 			xs, gs = append(xs, f[0]), append(gs, f[1])
 		}
@@ -159,7 +193,7 @@ func (g *G) OverloadItem() Item {
 			continue
 		}
 		f := fmt.Sprintf("func %s(%s) int %s\n\n", fn, params(tuples[i]), body(i))
-		declG.WriteString(f)
+		declG.WriteString(fmt.Sprintf("func %s(%s) int %s\n\n", fn, params(tuples[i]), bodyOf(i, false)))
 		if named(i) {
 			declX.WriteString(f)
 		}
@@ -214,7 +248,7 @@ func (g *G) OverloadItem() Item {
 	return Item{Kind: "overload-" + style, X: x.String(), G: gg.String(), DeclX: declX.String(), DeclG: declG.String(),
 		Key:        fmt.Sprintf("overload/%s/%v/%v", style, tags, order),
 		NonTrivial: k >= 3 || style == "mixed", Labels: []string{fmt.Sprintf("cands=%d", k), "order=" + fmt.Sprint(order)[:min(len(fmt.Sprint(order)), 9)],
-			fmt.Sprintf("underscore-names=%v/%v", isMethod && strings.Contains(recvT, "_"), strings.Contains(id, "_"))}}
+			fmt.Sprintf("underscore-names=%v/%v", isMethod && strings.Contains(recvT, "_"), strings.Contains(id, "_")), fmt.Sprintf("self-call=%v", selfCall)}}
 }
 
 // operatorItem: operators overloaded on a struct type, single-type and multi-type forms.
